@@ -46,10 +46,15 @@ FixedShapes == {
    << <<C("+", Big)>>, <<C("+", 2)>> >>,
    << <<C("+", Mid), C("g", 200), C("+", Mid)>>, <<C("+", 1)>>, <<C("+", Mid)>> >>,
    << <<C("g", 2), C("+", Mid), C("g", 200), C("+", Mid), C("g", 1)>> >>,
-   << <<C("+", Mid), C("g", 1), C("g", 200), C("+", Mid)>> >> }
+   << <<C("+", Mid), C("g", 1), C("g", 200), C("+", Mid)>> >>,
+   \* tiny scaffolds (absent from the map when shorter than a texel) whose rows do not simply alternate contig / gap
+   << <<C("+", Big)>>, <<C("g", 1), C("+", 1), C("h", 1), C("+", 1)>> >>,
+   << <<C("+", Big)>>, <<C("+", 1), C("+", 1), C("g", 1), C("-", 1)>> >>,
+   << <<C("+", Mid), C("g", 200), C("+", Mid)>>, <<C("+", 1), C("h", 1), C("g", 1), C("+", 2)>> >> }
 RandRow(i) == IF i % 2 = 1 THEN C(RandomElement({"+", "+", "-"}), RandomElement(LenPool)) ELSE C(RandomElement({"g", "g", "h"}), RandomElement(GapPool))
 \* (operators with a dummy parameter: TLC would evaluate a parameterless definition once and cache it)
-RandScaffold(x) == LET n == RandomElement({1, 2, 3}) IN [i \in 1..(2 * n - 1) |-> RandRow(i)]
+RandScaffold(x) == LET n == RandomElement({1, 2, 3}) IN
+                   SelectSeq([i \in 1..(2 * n - 1) |-> IF i % 2 = 0 /\ RandomElement(1..6) = 1 THEN C("x", 0) ELSE RandRow(i)], LAMBDA r : r[1] # "x")
 RandShape(x) == [s \in 1..RandomElement({1, 2, 3}) |-> RandScaffold(s)]
 \* shapes for the tagging scenarios (Mode = "tagged"): few, because the tag combinatorics is what is explored there
 TagShapes == {
@@ -59,7 +64,8 @@ Shapes == (IF Mode = "tagged" THEN TagShapes ELSE FixedShapes) \cup {RandShape(x
 
 ShapeLen(sh) == FoldLeft(LAMBDA a, r : a + r[2], 0, sh)
 \* concrete rows.  naming "fasta": contig name = scaffold name, contig coordinates = scaffold coordinates (as derived from a
-\* FASTA file); only for all-forward shapes with scaffold-type gaps.  naming "free": own contig names and offsets.
+\* FASTA file); only for all-forward shapes with scaffold-type gaps.  naming "free": own contig names and offsets.  naming "shared":
+\* the contigs of a scaffold are pieces of one earlier-cut contig (same name, consecutive coordinates, either strand).
 IsFastaLike(shape) == \A s \in 1..Len(shape) : \A q \in 1..Len(shape[s]) : shape[s][q][1] \in {"+", "g"}
 \* NameStyle "plain": S1, S2, ... ; "hap": scaffolds alternate between two haplotypes, named as the haplotype-resolved assemblies
 \* are (the haplotype is the part before the first underscore, compared case-insensitively)
@@ -71,6 +77,7 @@ ConcreteRows(shape, s, naming) ==
      LET before == ShapeLen(SubSeq(sh, 1, q - 1)) IN
      IF sh[q][1] \in {"g", "h"} THEN GapRow(IF sh[q][1] = "g" THEN "scaffold" ELSE "contig", sh[q][2])
      ELSE IF naming = "fasta" THEN Frag(ScName(s), before + 1, before + sh[q][2], 1)
+     ELSE IF naming = "shared" THEN Frag(ScName(s) \o "x", before + 1, before + sh[q][2], IF sh[q][1] = "+" THEN 1 ELSE -1)
      ELSE Frag(ScName(s) \o (IF NameStyle = "hap" THEN "_" ELSE "c") \o ToString(q), 3 * q + 1, 3 * q + sh[q][2], IF sh[q][1] = "+" THEN 1 ELSE -1)]
 Concrete(shape, naming) == [s \in 1..Len(shape) |-> [name |-> ScName(s), rows |-> ConcreteRows(shape, s, naming)]]
 
@@ -83,7 +90,7 @@ TexChoices(L) == LET fl == (L * TD) \div TN  ce == (L * TD + TN - 1) \div TN IN 
 NullMap(tx) == LET present == SelectSeq([s \in 1..Len(tx) |-> s], LAMBDA s : tx[s] > 0)
                IN [g \in 1..Len(present) |-> [painted |-> FALSE, pieces |-> <<Piece(present[g], 0, tx[present[g]], FALSE)>>]]
 Init == /\ shape \in Shapes
-        /\ naming \in (IF IsFastaLike(shape) THEN {"fasta", "free"} ELSE {"free"})
+        /\ naming \in (IF IsFastaLike(shape) THEN {"fasta", "free"} ELSE {"free", "shared"})
         /\ tex \in {tx \in [1..Len(shape) -> UNION {TexChoices(ShapeLen(shape[s])) : s \in 1..Len(shape)}] :
                          \A s \in 1..Len(shape) : tx[s] \in TexChoices(ShapeLen(shape[s]))}
         /\ \E s \in 1..Len(shape) : tex[s] > 0
